@@ -272,6 +272,11 @@ class MetadorDataset(MetadorNode):
     _self_RO_FORBIDDEN = {"resize", "make_scale", "write_direct", "flush"}
 
     def __getattr__(self, key):
+        if hasattr(type(self), key):
+            # only reached if a property of the wrapper raised an AttributeError
+            # (e.g. forbidden access to parent or file) -> must not fall back to the
+            # attribute of the raw object, that would bypass the restrictions
+            raise UnsupportedOperationError(key)
         if self.acl[NodeAcl.read_only] and key in self._self_RO_FORBIDDEN:
             self._guard_acl(NodeAcl.read_only, key)
         if self.acl[NodeAcl.skel_only] and key == "get":
